@@ -19,6 +19,10 @@ pub struct Case {
     /// run the conversation over TLS instead and end it at TLS-level points (see `exec_tls`)
     #[serde(default)]
     pub tls: Option<TlsEnds>,
+    /// conversations with a multi-packet request are too long to cut at every byte: cut only at
+    /// these positions (and skip the other fault kinds)
+    #[serde(default)]
+    pub only_eof_at: Vec<usize>,
 }
 
 #[derive(Clone, Debug, Serialize, Deserialize)]
@@ -45,7 +49,7 @@ impl Prop for C19 {
         "fault_enumeration"
     }
     fn rule(&self) -> String {
-        "cases = a generated conversation (C03-style: writer programs with explicit finishes and drops, prepared statements, QUIT- or EOF-terminated, generated read/write chunking) run fault-free to obtain its operation trace (N transport operations, B inbound bytes), then re-run with EVERY fault point: end-of-stream after k bytes for k = 0..B; a one-off error at operation k and a persistent error from operation k (each with io::ErrorKind ConnectionReset, UnexpectedEof and one of Other / BrokenPipe / TimedOut), write() -> Ok(0) at operation k for k = 0..N-1, and a read interrupted with ErrorKind::Interrupted at every read operation (which the library may either report or retry transparently, but the callback log must stay a prefix of the fault-free log); plus a tagged shim error at every callback index; enumerated conversations whose response contains a packet of 2^24-1 bytes or more (written explicitly and from a destructor); one generated conversation in twelve is instead run over TLS (rustls client in the transport) and ended at TLS-level points: a clean close (close_notify + end of stream) after the first m messages for every m (m = 0: TLS session established but no handshake response => Err and no callback; m >= 1 => Ok), and an abrupt end of stream at 10 sampled positions before the encrypted handshake response is complete (=> Err, no callback), and four malformed encrypted handshake responses (truncated; unterminated long UTF-8 user name => Err, no callback, no panic). Oracle: EOF => Ok iff k is a command boundary at or after the end of the handshake exchange (or QUIT was already consumed), else Err; transport fault => Err (never Ok, never a panic), the callback log is a prefix of the fault-free log and no callback starts after the fault; shim error => returned unchanged, no later callback. evaluations counts conversations; faulted_runs counts the enumerated re-runs. Non-trivial = the conversation has >= 3 commands and >= 1 resultset program.".into()
+        "cases = a generated conversation (C03-style: writer programs with explicit finishes and drops, prepared statements, QUIT- or EOF-terminated, generated read/write chunking) run fault-free to obtain its operation trace (N transport operations, B inbound bytes), then re-run with EVERY fault point: end-of-stream after k bytes for k = 0..B; a one-off error at operation k and a persistent error from operation k (each with io::ErrorKind ConnectionReset, UnexpectedEof and one of Other / BrokenPipe / TimedOut), write() -> Ok(0) at operation k for k = 0..N-1, and a read interrupted with ErrorKind::Interrupted at every read operation (which the library may either report or retry transparently, but the callback log must stay a prefix of the fault-free log); plus a tagged shim error at every callback index; enumerated conversations whose response contains a packet of 2^24-1 bytes or more (written explicitly and from a destructor), and a multi-packet *request* cut at, around and inside every fragment boundary; one generated conversation in twelve is instead run over TLS (rustls client in the transport) and ended at TLS-level points: a clean close (close_notify + end of stream) after the first m messages for every m (m = 0: TLS session established but no handshake response => Err and no callback; m >= 1 => Ok), and an abrupt end of stream at 10 sampled positions before the encrypted handshake response is complete (=> Err, no callback), and four malformed encrypted handshake responses (truncated; unterminated long UTF-8 user name => Err, no callback, no panic). Oracle: EOF => Ok iff k is a command boundary at or after the end of the handshake exchange (or QUIT was already consumed), else Err; transport fault => Err (never Ok, never a panic), the callback log is a prefix of the fault-free log and no callback starts after the fault; shim error => returned unchanged, no later callback. evaluations counts conversations; faulted_runs counts the enumerated re-runs. Non-trivial = the conversation has >= 3 commands and >= 1 resultset program.".into()
     }
     fn exhaustive_note(&self, _tier: Tier) -> Option<String> {
         Some("fault points of each generated conversation (all k for EOF / one-off / persistent / zero-write faults, all callback indexes for shim errors)".into())
@@ -76,7 +80,7 @@ impl Prop for C19 {
             conv.hs.seq = 2;
             conv.sched = Schedule::all_at_once();
         }
-        Case { conv, stride: 1, tls }
+        Case { conv, stride: 1, tls, only_eof_at: vec![] }
     }
     fn fixed(&self, tier: Tier) -> Vec<Case> {
         // responses containing a packet of 2^24-1 bytes or more, written explicitly and from the
@@ -114,8 +118,40 @@ impl Prop for C19 {
                 } else {
                     Conversation::new(vec![Cmd::Query { text: Blob::text("big") }, Cmd::Ping], vec![Action::Result(prog)])
                 };
-                v.push(Case { conv, stride: 1, tls: None });
+                v.push(Case { conv, stride: 1, tls: None, only_eof_at: vec![] });
             }
+        }
+        // a request of several packets: the stream ends at, just before and just after every
+        // fragment boundary, inside the fragment headers and inside the fragments
+        let qlens: &[usize] = match tier {
+            Tier::Quick => &[MAX_PAYLOAD + 70],
+            Tier::Thorough => &[MAX_PAYLOAD - 1, MAX_PAYLOAD, MAX_PAYLOAD + 70, 2 * MAX_PAYLOAD, 2 * MAX_PAYLOAD + 9],
+        };
+        for (i, &len) in qlens.iter().enumerate() {
+            let conv = Conversation::new(vec![Cmd::Ping, Cmd::Query { text: Blob::Text { seed: i as u32 + 60, len: len - 1 } }, Cmd::Ping], vec![Action::Result(Program::completed(1, 1))]);
+            let (_, ends, _) = client_stream_meta(&conv);
+            // the query's bytes start at ends[1] (after handshake response and ping)
+            let start = ends[1];
+            let mut cuts = vec![start, start + 1, start + 3, start + 4, start + 5, start + 1000];
+            let mut off = start;
+            let mut left = len;
+            loop {
+                let n = left.min(MAX_PAYLOAD);
+                off += 4 + n;
+                for d in [-5i64, -1, 0, 1, 3, 4, 5] {
+                    let k = off as i64 + d;
+                    if k > start as i64 && (k as usize) <= ends[2] {
+                        cuts.push(k as usize);
+                    }
+                }
+                if n < MAX_PAYLOAD {
+                    break;
+                }
+                left -= n;
+            }
+            cuts.sort();
+            cuts.dedup();
+            v.push(Case { conv, stride: 1, tls: None, only_eof_at: cuts });
         }
         v
     }
@@ -151,8 +187,12 @@ impl Prop for C19 {
         let stride = case.stride.max(1);
 
         // 1. end of stream after k bytes
-        let mut k = 0;
-        while k <= b {
+        let eof_points: Vec<usize> = if case.only_eof_at.is_empty() { (0..=b).step_by(stride).collect() } else { case.only_eof_at.iter().copied().filter(|k| *k <= b).collect() };
+        if !case.only_eof_at.is_empty() {
+            ex.class("multi-packet-request-cut-around-fragment-boundaries");
+            ex.nontrivial = true;
+        }
+        for k in eof_points {
             let mut cc = c.clone();
             cc.fault = Fault::EofAfter(k);
             let o = run_with(&cc, None, false);
@@ -185,7 +225,10 @@ impl Prop for C19 {
                 ex.fail("c19-eof-callbacks", format!("end of stream after {} bytes: callback log is not a prefix of the fault-free log", k));
                 return ex;
             }
-            k += stride;
+        }
+        if !case.only_eof_at.is_empty() {
+            ex.count("faulted_runs", runs);
+            return ex;
         }
 
         // 2. transport faults at every operation (kinds 3.. repeat the one-off and persistent faults
